@@ -35,7 +35,7 @@ DIRS = ["BT", "TB", "LR", "RL", "XX"]
 OPTS = [dict(show_nary=a, use_labels=b, show_element_attributes=c, show_relation_attributes=d, direction=e)
         for a, b, c, d, e in itertools.product([True, False], [True, False], [True, False], [True, False], DIRS)]
 REQUIRED_CLASSES = {"all": ["hostile:identifier", "hostile:label", "hostile:value", "has:bundle", "opt:use_labels", "opt:no_nary",
-                            "path:via_point", "path:direct", "annotation_rows_checked"]}
+                            "path:via_point", "path:direct", "annotation_rows_checked", "rendered_then_edited_then_rendered"]}
 MARKUP = set('"<>&\\{}|\n')
 
 
@@ -58,10 +58,15 @@ def _case(draw):
     for sel, text in labels:
         ops.append(["attrs", sel, [[gen.prov_name("label"), {"k": "str", "v": text}]], "pairs"])
     if draw(st.integers(0, 3)) == 0:
+        # labels longer than any plausible display limit, markup characters all along
+        unit = draw(st.sampled_from(["ab&", "x<y>", 'q"', "é&amp;", "]", "a b "]))
+        ops.append(["attrs", draw(st.integers(0, 30)), [[gen.prov_name("label"), {"k": "str", "v": unit * draw(st.integers(15, 40))}]], "pairs"])
+    rerender = draw(st.integers(0, 3)) == 0
+    if draw(st.integers(0, 3)) == 0:
         # percent signs in attribute NAMES (percent-encoded namespace, local part): format-string hazards
         ops.append(["attrs", draw(st.integers(0, 30)),
                     [[{"ns": "http://example.org/lab%20notes/", "local": "run%2Did", "prefix": "lab", "as": "qn"}, {"k": "str", "v": "100%"}]], "pairs"])
-    return dict(r, ops=ops, opts=draw(st.integers(0, len(OPTS) - 1)))
+    return dict(r, ops=ops, opts=draw(st.integers(0, len(OPTS) - 1)), rerender=rerender)
 
 
 def strategy(tier):
@@ -121,10 +126,27 @@ def check(case, ctx):
     b = build(case)
     d = b.doc
     opts = OPTS[case.get("opts", 0) % len(OPTS)]
+    ref_doc = d
+    if case.get("rerender") and b.records:
+        # rendered once, then an existing record is completed, then rendered again; the expectation is computed from
+        # a twin that was never rendered (nothing the first rendering may have cached can leak into the oracle)
+        from prov.identifier import Namespace
+        try:
+            prov_to_dot(d, **opts).to_string()
+        except Exception as e:
+            return [exc_item(e, "prov_to_dot")]
+        twin = build(case)
+        LATE = Namespace("late", "http://late.example/")
+        for bb in (b, twin):
+            si, rec, m = bb.records[len(case["ops"]) % len(bb.records)]
+            rec.add_attributes([(LATE["added"], "after <first> rendering"), (Namespace("prov", spec.PROV_NS)["label"], "late & label")]
+                               if not any(a == spec.PROV_NS + "label" for a, _ in m["attrs"]) else [(LATE["added"], "after <first> rendering")])
+        ref_doc = twin.doc
+        ctx.count("rendered_then_edited_then_rendered")
     try:
-        u = d.unified()
+        u = ref_doc.unified()
     except ProvException:
-        u = d
+        u = ref_doc
         ctx.count("unification_refused_original_drawn")
     type_to_kind = {spec.type_uri(k): k for k in spec.KINDS}
     formal_uris = {spec.PROV_NS + a for k in spec.KINDS for a, t in spec.formal_args(k) if t == "ref"}
